@@ -45,6 +45,8 @@ def cases(tier):
                 for c in (False, True):
                     for idx in range(1, d):
                         yield {'rows': list(rows), 'r': [1] + [min(rows)] * (d - 1) + [1], 'c': c, 'fam': 'ties', 'idx': idx, 'scale': 1.0}
+                        # weighted unit tensors with weights 2, 1e-17, 1e-3: a retained singular-value ratio below 1e-15
+                        yield {'rows': list(rows), 'r': [1] + [min(rows)] * (d - 1) + [1], 'c': c, 'fam': 'graded', 'idx': idx, 'scale': 1.0}
     if q:
         # order 4 (the first order with a split index whose left part has an interior core)
         for rows in ([2, 2, 2, 2], [2, 3, 2, 2]):
@@ -64,6 +66,15 @@ def run_case(case, seed):
     d = len(rows)
     if fam == 'lowrank':
         cores0 = lowrank_cores(rng, rows, [1] * d, rk, c, 1)
+    elif fam == 'graded':
+        J = rk[1]
+        w = [2.0, 1e-17, 1e-3][:J]
+        cores0 = []
+        for i in range(d):
+            cr = np.zeros((1 if i == 0 else J, rows[i], 1, 1 if i == d - 1 else J), dtype=complex if c else float)
+            for j in range(J):
+                cr[0 if i == 0 else j, j, 0, 0 if i == d - 1 else j] = (w[j] * ((1j) ** j if c else 1.0)) if i == 0 else 1.0
+            cores0.append(cr)
     elif fam == 'ties':
         # sum of J unit tensors with weights (2,2,1): exactly tied singular values in every unfolding, inner cores are
         # partial identities (orthonormal on both sides), the weights sit in the first core
@@ -100,6 +111,22 @@ def run_case(case, seed):
     a = dn(tt_from(cores0)).reshape(rows)
     m = int(np.prod(rows[:idx])); n = int(np.prod(rows[idx:]))
     A = a.reshape(m, n)
+    if fam == 'graded':
+        # threshold 0 keeps every singular direction, however small: the pseudoinverse (conjugate-transposed) of a weighted sum
+        # of unit tensors has the entries 1/conj(w_j) where the tensor has w_j
+        r.nontrivial = True
+        want = np.zeros_like(A, dtype=complex if c else float)
+        nzm = A != 0
+        want[nzm] = 1.0 / np.conj(A[nzm])
+        for ow in (False, True):
+            T = tt_from(cores0); s0 = snap(T)
+            with r.op('pinv:graded:call'):
+                P = T.pinv(idx, threshold=0, overwrite=ow)
+                if r.true('pinv:graded:meta', meta_problem(P) is None and list(P.row_dims) == rows, str(meta_problem(P))):
+                    r.close('pinv:graded:value', dn(P).reshape(m, n) / np.abs(want).max(), want / np.abs(want).max(), 1e-9, 'weights 2, 1e-17, 1e-3; threshold 0')
+                if not ow:
+                    r.true('pinv:input-unchanged', unchanged(T, s0))
+        return r
     sref = np.linalg.svd(A, compute_uv=False)
     if sref[0] == 0:
         r.skipped += 1
@@ -175,4 +202,31 @@ def run_case(case, seed):
                 r.close(key + ':value', dn(P).reshape(m, n) * sref[nrank - 1], want * sref[nrank - 1], 1e-9 * cond)
             if not ow:
                 r.true(key + ':input-unchanged', unchanged(T, s0), 'pinv(overwrite=False) changed its input')
+    # call histories on ONE object: repeated in-place splits (overwrite=True). Whatever tensor the object holds after a split,
+    # the next split must be a correct SVD of THAT tensor (nothing may be remembered about earlier sweeps)
+    if fam == 'gauss' and idx == 1 and d >= 3 and case.get('scale', 1.0) == 1.0:
+        for seq in itertools.product(range(1, d), repeat=3):
+            T = tt_from(cores0)
+            for step, ix in enumerate(seq):
+                if meta_problem(T) is not None or list(T.row_dims) != rows:
+                    break
+                now = dn(T).reshape(rows)
+                mm = int(np.prod(rows[:ix]))
+                An = now.reshape(mm, -1)
+                sr = np.linalg.svd(An, compute_uv=False)
+                if sr[0] == 0:
+                    break
+                key = 'svd:ow:history'
+                with r.op(key + ':call'):
+                    u, s_, v = T.svd(ix, overwrite=True)
+                    if meta_problem(u) is None and meta_problem(v) is None and len(s_) > 0:
+                        k_ = len(s_)
+                        U = dnb(u).reshape(mm, k_); V = dnb(v).reshape(k_, -1)
+                        what = 'in-place splits at %s, call %d' % (list(seq), step + 1)
+                        r.close(key + ':u-orthonormal', U.conj().T @ U, np.eye(k_), 1e-9, what)
+                        r.close(key + ':singular-values', np.asarray(s_)[:min(k_, len(sr))] / sr[0], sr[:min(k_, len(sr))] / sr[0], 1e-9, what)
+                        r.close(key + ':reconstruction', (U * np.asarray(s_)) @ V / sr[0], An / sr[0], 1e-9, what)
+                    else:
+                        r.fail(key + ':meta', 'parts inconsistent (%s)' % (list(seq),))
+                        break
     return r
